@@ -101,6 +101,9 @@ macro_rules! cmp {
             other: &Self,
         ) -> Result {
         Ok(A::new_bool(clear_null(match (self, other) {
+            // a comparison with the untyped NULL literal is NULL for every row
+            (A::Null(_), _) | (_, A::Null(_)) => (0..self.len()).map(|_| None::<bool>).collect(),
+
             (A::Bool(a), A::Bool(b)) => binary_op(a.as_ref(), b.as_ref(), |a, b| a $op b),
 
             (A::Int16(a), A::Int16(b)) => binary_op(a.as_ref(), b.as_ref(), |a, b| a $op b),
